@@ -81,7 +81,7 @@ func validFoldCommands(maxLen int) []string {
 
 // c15WordAlphabet: whole words as symbols - the namespace and command names of the UCAN specifications, a
 // segment that is a combining mark or starts with one, a zero-width joiner, a non-breaking space.
-var c15WordAlphabet = []string{"/", "ucan", "revoke", "x", "\u0301", "msg", "\u200d", "\u00a0", "\ufeff"}
+var c15WordAlphabet = []string{"/", "ucan", "revoke", "x", "\u0301", "msg", "\u200d", "\u00a0", "\ufeff", "*"}
 
 func validWordCommands(maxLen int) []string {
 	if v, ok := validCmdMemo.Load(1000 + maxLen); ok {
@@ -190,7 +190,7 @@ func C15() *engine.Check {
 		}
 	}
 	parse := mkParse("parse", "{/,a,b,A,é,É}", c15Alphabet, 6, 8)
-	parseWords := mkParse("parse-well-known-names-and-marks", "the words {/, ucan, revoke, x, msg} and the characters {U+0301 combining acute, U+200D zero-width joiner, U+00A0 no-break space, U+FEFF byte order mark} as symbols", c15WordAlphabet, 5, 6)
+	parseWords := mkParse("parse-well-known-names-and-marks", "the words {/, ucan, revoke, x, msg} and the characters {U+0301 combining acute, U+200D zero-width joiner, U+00A0 no-break space, U+FEFF byte order mark, * (a star is an ordinary segment character, not a wildcard)} as symbols", c15WordAlphabet, 5, 6)
 	parseFold := mkParse("parse-case-fold-classes", "{/, s, ſ (long s), σ, ς (final sigma), ǆ, ǅ (title case), K (Kelvin sign)}", c15FoldAlphabet, 5, 6)
 
 	mkPairs := func(name, alphaDesc string, cmdsOf func(n int) []string, q, t int) *engine.Sub {
@@ -263,7 +263,7 @@ func C15() *engine.Check {
 		}
 	}
 	pairs := mkPairs("covers-pairs", "{/,a,b,A,é,É}", validCommands, 6, 7)
-	pairsWords := mkPairs("covers-pairs-well-known-names-and-marks", "the words {/, ucan, revoke, x, msg} and {U+0301, U+200D, U+00A0, U+FEFF} as symbols (segments that are or start with a combining mark; the /ucan namespace)", validWordCommands, 4, 5)
+	pairsWords := mkPairs("covers-pairs-well-known-names-and-marks", "the words {/, ucan, revoke, x, msg} and {U+0301, U+200D, U+00A0, U+FEFF, *} as symbols (segments that are or start with a combining mark; the /ucan namespace; a segment that is a lone star covers nothing but itself)", validWordCommands, 4, 5)
 	pairsFold := mkPairs("covers-pairs-case-fold-classes", "{/, s, ſ, σ, ς, ǆ} (lower-case letters that are case-fold partners)", validFoldCommands, 4, 5)
 
 	triples := &engine.Sub{
@@ -439,10 +439,79 @@ func C15() *engine.Check {
 	return &engine.Check{
 		Property: "C15",
 		Level:    "model_checking",
-		Subs:     []*engine.Sub{parse, parseFold, parseWords, pairs, pairsFold, pairsWords, triples, join, joinKept, c15ConcSub(), concRaceSub("C15")},
+		Subs:     []*engine.Sub{parse, parseFold, parseWords, pairs, pairsFold, pairsWords, triples, join, joinKept, c15CollideSub(), c15ConcSub(), concRaceSub("C15")},
 		Assumptions: []string{
 			"alphabets {/,a,b,A,é,É} and {/,s,ſ,σ,ς,ǆ,ǅ,K}: valid UTF-8 only; behaviour on invalid UTF-8 is not decided by the property",
 			"reference model: strings.Split on '/' after the leading slash; unicode.ToLower per rune",
+		},
+	}
+}
+
+// ---- commands whose hashes collide ----
+
+type c15CollideCase struct {
+	Pair   int  `json:"pair"`
+	BFirst bool `json:"b_first"`
+}
+
+func (c *c15CollideCase) Weight() int { return c.Pair }
+
+func c15CollideSub() *engine.Sub {
+	gen := func(i int) string { v := uint32(i) * 2654435761; return fmt.Sprintf("/c%04x/k%04x", v>>16, v&0xffff) }
+	const perHash = 3
+	return &engine.Sub{
+		Name:   "commands-whose-hashes-collide",
+		Serial: true,
+		Rule:   "pairs of distinct valid commands /cxxxx/kxxxx of one length with the same sum under FNV-1a/32, FNV-1/32, CRC-32 (IEEE, Castagnoli), Adler-32 and FNV-1a/64 folded or cut to 32 bits (3 pairs each, found by enumeration, re-verified at start-up), parsed one after the other in one process in both orders (Parse, MustParse, New + Join of the segments): each result prints its own text and has its own segments, neither covers the other, each covers itself; non-trivial = all",
+		Bound:  func(string) string { return fmt.Sprintf("%d hash functions x %d pairs x 2 orders x 3 ways in", len(collideHashes), perHash) },
+		Gen: func(tier string, emit func(any) bool) {
+			for p := 0; p < len(collideHashes)*perHash; p++ {
+				for _, bf := range []bool{false, true} {
+					if !emit(&c15CollideCase{p, bf}) {
+						return
+					}
+				}
+			}
+		},
+		NewCase: func() any { return &c15CollideCase{} },
+		Run: func(ctx *engine.Ctx, c any) {
+			cs := c.(*c15CollideCase)
+			pr := collidingTexts("commands", gen, perHash)[cs.Pair]
+			texts := []string{pr.A, pr.B}
+			if cs.BFirst {
+				texts = []string{pr.B, pr.A}
+			}
+			ctx.States(1)
+			ctx.Nontrivial(1)
+			for way := 0; way < 3; way++ {
+				var got [2]command.Command
+				for k, t := range texts {
+					var err error
+					switch way {
+					case 0:
+						got[k], err = command.Parse(t)
+					case 1:
+						got[k] = command.MustParse(t)
+					default:
+						got[k] = command.New(strings.Split(t[1:], "/")...)
+					}
+					ctx.Eval(1)
+					ctx.Trans(1)
+					if err != nil {
+						ctx.Failf(cs, "collide/"+pr.Hash+"/refused", "Parse(%q) fails after Parse(%q) (same %s sum): %v", t, texts[0], pr.Hash, err)
+						return
+					}
+				}
+				for k, t := range texts {
+					if got[k].String() != t || strings.Join(got[k].Segments(), "/") != t[1:] {
+						ctx.Failf(cs, "collide/"+pr.Hash+"/returns-the-other-command", "%q entered %s %q (same %s sum, same length) comes back as %q with segments %v", t, [2]string{"before", "after"}[k], texts[1-k], pr.Hash, got[k].String(), got[k].Segments())
+					}
+					if !got[k].Covers(got[k]) || got[k].Covers(got[1-k]) && got[k].String() == t && got[1-k].String() == texts[1-k] {
+						ctx.Failf(cs, "collide/"+pr.Hash+"/covers", "%q and %q (same %s sum): Covers is wrong", t, texts[1-k], pr.Hash)
+					}
+				}
+				ctx.Outcome("ok")
+			}
 		},
 	}
 }
